@@ -134,17 +134,24 @@ class FuseSuccessiveClip(_FuseReluClipBase):
         min_clip1, max_clip1, dtype = self.extract_min_max(first_clip_node)
         min_clip2, max_clip2, _ = self.extract_min_max(second_clip_node)
 
-        def combine(val1, val2, op):
-            if val1 is not None and val2 is not None:
-                return ir.tensor(np.array(op(val1, val2), dtype=dtype))
-            elif val1 is not None:
-                return ir.tensor(val1)
-            elif val2 is not None:
-                return ir.tensor(val2)
-            return None
+        def second_clip(val1):
+            # Bound of the first Clip as seen through the second Clip.
+            if min_clip2 is not None:
+                val1 = np.maximum(val1, min_clip2)
+            if max_clip2 is not None:
+                val1 = np.minimum(val1, max_clip2)
+            return ir.tensor(np.array(val1, dtype=dtype))
 
-        min_clip = combine(min_clip1, min_clip2, np.maximum)
-        max_clip = combine(max_clip1, max_clip2, np.minimum)
+        # Clip(Clip(x, a, b), c, d) == Clip(x, clip(a, c, d), clip(b, c, d)), also when
+        # the two ranges do not intersect or a bound pair is inverted.
+        if min_clip1 is not None:
+            min_clip = second_clip(min_clip1)
+        else:
+            min_clip = ir.tensor(min_clip2) if min_clip2 is not None else None
+        if max_clip1 is not None:
+            max_clip = second_clip(max_clip1)
+        else:
+            max_clip = ir.tensor(max_clip2) if max_clip2 is not None else None
 
         return min_clip, max_clip
 
